@@ -66,13 +66,19 @@ def emitBefore (p : Printer) (before : List Comment) : Printer :=
 /-- epilogue of `expr`: queue end-of-line comments. -/
 def queueSuffix (p : Printer) (suffix : List Comment) : Printer := { p with comment := p.comment ++ suffix }
 
+/-- tokens before which no separator is printed: `,` `)` `]` `}` -/
+def noSepBefore : List Bytes := [[44], [41], [93], [125]]
+
+/-- tokens after which no separator is printed: `(` `[` `{` -/
+def noSepAfter : List Bytes := [[40], [91], [123]]
+
 /-- tokens -/
 def tokensAux (p : Printer) : List Bytes → Bytes → Printer
   | [], _ => p
   | t :: rest, sep =>
-    let sep := if t == [44] || t == [41] || t == [93] || t == [125] then [] else sep
+    let sep := if noSepBefore.contains t then [] else sep
     let p := (p.write sep).write t
-    let sep : Bytes := if t == [40] || t == [91] || t == [123] then [] else [32]
+    let sep : Bytes := if noSepAfter.contains t then [] else [32]
     tokensAux p rest sep
 
 def tokens (p : Printer) (ts : List Bytes) : Printer := tokensAux p ts []
